@@ -6,6 +6,7 @@ import (
 	"fmt"
 	"os"
 	"path/filepath"
+	"runtime/debug"
 	"sort"
 	"strings"
 	"sync"
@@ -658,7 +659,7 @@ var kindsCycle = []OpSpec{
 func safeRead(repo repository.ClockedRepo, id string) (b *bug.Bug, err error, panicked string) {
 	defer func() {
 		if r := recover(); r != nil {
-			panicked = fmt.Sprint(r)
+			panicked = fmt.Sprint(r) + " at " + PanicSite(string(debug.Stack()))
 		}
 	}()
 	b, err = bug.Read(repo, entity.Id(id))
@@ -684,9 +685,23 @@ func allRefsOf(repo repository.RepoData) string {
 	return sb.String()
 }
 
+// freshClocks makes every case start from the same clock state: no value witnessed by an earlier
+// case (some accepted hostile histories carry large times) leaks into the next one.
+func (env *c07Env) freshClocks(tb report.TB) *repository.GoGitRepo {
+	_ = env.repo.Close()
+	_ = os.RemoveAll(filepath.Join(env.dir, ".git", "git-bug", "clocks"))
+	_ = os.RemoveAll(filepath.Join(env.dir, ".git", "git-bug", "lock"))
+	repo, err := repository.OpenGoGitRepo(env.dir, "git-bug", nil)
+	if err != nil {
+		tb.Fatalf("harness: reopen: %v", err)
+	}
+	env.repo = repo
+	return repo
+}
+
 func runC07(tb report.TB, rep *report.Reporter, c c07Case) {
 	env := getC07Env(tb)
-	repo := env.repo
+	repo := env.freshClocks(tb)
 	op := findOp(c.Operator)
 	if op == nil {
 		tb.Fatalf("harness: unknown operator %s", c.Operator)
